@@ -127,6 +127,10 @@ pub struct Program {
     /// collide: salsa has to tell them apart by equality and bump the id generation in place)
     #[serde(default)]
     pub coarse_hash: bool,
+    /// reclaimable interned values hash by value instead of with a constant (one shard is then
+    /// only guaranteed for workers pinned to one core)
+    #[serde(default)]
+    pub sym_hash: bool,
 }
 
 #[derive(Clone, Debug, PartialEq, Eq, Hash, Serialize, Deserialize)]
@@ -204,6 +208,7 @@ pub struct Profile {
     /// `on_ent_spec` for it under an input-dependent condition, an `on_ent_spec` body that reads
     /// inputs, readers that call a creator and then `on_ent_spec` on its struct
     pub spec_shape_pct: u32,
+    pub sym_hash_pct: u32,
 }
 
 impl Profile {
@@ -236,6 +241,7 @@ impl Profile {
             episode_pct: 0,
             sat_pct: 0,
             spec_shape_pct: 0,
+            sym_hash_pct: 0,
         }
     }
 }
@@ -374,7 +380,8 @@ pub fn gen_program(t: &mut Tape, pf: &Profile) -> Program {
     let on_ent_spec = strip(on_ent_spec);
     let on_sym = strip(on_sym);
     let coarse_hash = pf.coarse_hash_pct > 0 && g.t.pick(100) < pf.coarse_hash_pct;
-    Program { slots, cells, nodes, base: base as u8, on_ent, on_ent_spec, on_sym, lattice: false, coarse_hash }
+    let sym_hash = pf.sym_hash_pct > 0 && g.t.pick(100) < pf.sym_hash_pct;
+    Program { slots, cells, nodes, base: base as u8, on_ent, on_ent_spec, on_sym, lattice: false, coarse_hash, sym_hash }
 }
 
 pub fn gen_history(t: &mut Tape, prog: &Program, pf: &Profile) -> Vec<Step> {
@@ -578,6 +585,7 @@ pub fn gen_lattice_program(t: &mut Tape, pf: &Profile) -> Program {
         on_sym: vec![],
         lattice: true,
         coarse_hash: false,
+        sym_hash: false,
     }
 }
 
@@ -695,7 +703,7 @@ pub fn gen_spec_program(t: &mut Tape, pf: &Profile) -> Program {
     };
     let on_ent = special(t);
     let on_ent_spec = special(t);
-    Program { slots, cells: vec![], nodes, base: ncr as u8, on_ent, on_ent_spec, on_sym: vec![Op::SymField { h: 0 }], lattice: false, coarse_hash: false }
+    Program { slots, cells: vec![], nodes, base: ncr as u8, on_ent, on_ent_spec, on_sym: vec![Op::SymField { h: 0 }], lattice: false, coarse_hash: false, sym_hash: false }
 }
 
 // ---------------------------------------------------------------------------------------------
@@ -775,5 +783,6 @@ pub fn gen_intern_program(t: &mut Tape, pf: &Profile) -> Program {
         on_sym: vec![Op::SymField { h: 0 }],
         lattice: false,
         coarse_hash: false,
+        sym_hash: pf.sym_hash_pct > 0 && t.pick(100) < pf.sym_hash_pct,
     }
 }
